@@ -31,12 +31,12 @@ ASSUMPTIONS = [
     "rounded results (is_exact False): deviation at n<=10 compared with 10*(n+k)*k*eps_rel*cond(V)*max|e_n|*max(1,|C|) measured on the exact roots; "
     "numeric_croots precision taken as 1e-13 (sympy N() default), not eps",
 ]
-TIMEOUT = {"quick": 75, "thorough": 200}
+TIMEOUT = {"quick": 70, "thorough": 200}
 DEADLINE = {"quick": 100, "thorough": 1500}
 MIN_DECIDING = {"quick": 60, "thorough": 600}
 NCASES = {"quick": 230, "thorough": 5200}
-RUN_BUDGET = {"quick": 20, "thorough": 50}    # seconds per solver run and per comparison phase (alarm inside the worker)
-CASE_BUDGET = {"quick": 50, "thorough": 140}  # no new run is started after this many seconds (watchdog = TIMEOUT)
+RUN_BUDGET = {"quick": 12, "thorough": 50}    # seconds per solver run and per comparison phase (alarm inside the worker)
+CASE_BUDGET = {"quick": 40, "thorough": 140}  # no new run is started after this many seconds (watchdog = TIMEOUT)
 HEAVY = ("hard", "repeated_companion", "companion", "scrambled", "parametric", "syminit", "options")
 
 KEY_P1 = "acyclic-zero-coefficient-shift-single-special-case"
@@ -166,21 +166,103 @@ def shape_of(expr):
     return s, t, general
 
 
-def instantiate_form(f, vals):
-    """substitute the parameter values once (n stays symbolic) and replace CRootOf atoms by 100-digit floats
-    (sympy re-refines every CRootOf on every evalf call, which makes the 70-digit evaluation very slow)"""
+def instantiate_params(f, vals):
+    """substitute the parameter values once (n stays symbolic)"""
     import sympy
-    from sympy.polys.rootoftools import ComplexRootOf
     m = {}
     for sy in f.free_symbols:
         if sy.name in vals:
             x = vals[sy.name]
             m[sy] = sympy.Rational(x.numerator, x.denominator)
-    g = f.xreplace(m) if m else f
+    return f.xreplace(m) if m else f
+
+
+def numerify_for_eval(g):
+    """replace CRootOf atoms by 100-digit floats (sympy re-refines every CRootOf on every evalf call, which makes
+    the 70-digit evaluation very slow)"""
+    from sympy.polys.rootoftools import ComplexRootOf
     croots = g.atoms(ComplexRootOf)
     if croots:
-        g = g.xreplace({r: r.evalf(100) for r in croots})
+        g = g.xreplace({r: croot_value(r) for r in croots})
     return g
+
+
+_croot_cache = {}
+
+
+def croot_value(r):
+    """100-digit value of a sympy CRootOf: roots of its polynomial by mpmath.polyroots, matched to the CRootOf by its
+    (cheap) 20-digit evalf; falls back to sympy's own slow refinement when the match is not unambiguous"""
+    import sympy
+    import mpmath as mp
+    if r in _croot_cache:
+        return _croot_cache[r]
+    val = None
+    try:
+        coeffs = r.poly.all_coeffs()
+        with mp.workdps(130):
+            cs = [mp.mpf(int(c.p)) / int(c.q) for c in coeffs]
+            roots = mp.polyroots(cs, maxsteps=2000, extraprec=1000)
+            z = r.evalf(20)
+            zr, zi = z.as_real_imag()
+            zc = mp.mpc(mp.mpf(str(zr)), mp.mpf(str(zi)))
+            ds = sorted((abs(x - zc), i) for i, x in enumerate(roots))
+            if ds[0][0] < mp.mpf("1e-15") and (len(ds) == 1 or ds[1][0] > mp.mpf("1e-8")):
+                x = roots[ds[0][1]]
+                re_ = sympy.Float(mp.nstr(mp.re(x), 110), 100)
+                im_ = sympy.Float(mp.nstr(mp.im(x), 110), 100)
+                if r.is_real:
+                    val = re_
+                else:
+                    val = re_ + sympy.I * im_
+    except Exception:
+        val = None
+    if val is None:
+        val = r.evalf(100)
+    _croot_cache[r] = val
+    return val
+
+
+def eval_form(f, n_val):
+    """value of a parameter-free closed form at n = n_val: Fraction when sympy reduces it to a rational, else a
+    70-digit mpmath number.  Fast path (select the Piecewise branch, substitute, evalf) of polar_api.eval_at, which is
+    the fallback whenever anything here is not clear-cut."""
+    import sympy
+    import mpmath as mp
+    try:
+        nsym = [a for a in f.free_symbols if a.name == "n"]
+        m = {nsym[0]: sympy.Integer(n_val)} if nsym else {}
+        e = f
+        if isinstance(f, sympy.Piecewise):
+            e = None
+            for ex, c in f.args:
+                cv = c.xreplace(m) if m else c
+                if cv == True:  # noqa: E712
+                    e = ex
+                    break
+                if cv != False:  # noqa: E712
+                    return P.eval_at(f, n_val, {})
+            if e is None:
+                return P.eval_at(f, n_val, {})
+        r = e.xreplace(m) if m else e
+        if r.free_symbols or r.has(sympy.Piecewise) or r.has(sympy.nan, sympy.zoo, sympy.oo, -sympy.oo):
+            return P.eval_at(f, n_val, {})
+        if r.is_Rational:
+            return Fraction(int(r.p), int(r.q))
+        v = sympy.N(r, 70)
+        if v.is_Rational:
+            return Fraction(int(v.p), int(v.q))
+        re_, im_ = v.as_real_imag()
+        if not (re_.is_Float or re_.is_Rational) or not (im_.is_Float or im_.is_Rational):
+            return P.eval_at(f, n_val, {})
+        rv, iv = mp.mpf(str(re_)), mp.mpf(str(im_))
+        return mp.mpc(rv, iv) if iv != 0 else rv
+    except (P.Leftover, P.NotANumber):
+        raise
+    except RunTimeout:
+        raise
+    except Exception:
+        return P.eval_at(f, n_val, {})
 
 
 def numeric_system(A, b, v, inst):
@@ -334,6 +416,7 @@ def run_case(case, tier):
                 continue
             P.reset_settings()
             _timed_out[0] = False
+            t_run = time.time()
             signal.setitimer(signal.ITIMER_REAL, RUN_BUDGET[tier])
             try:
                 solver = RecurrenceSolver(recs, **kw)
@@ -356,6 +439,8 @@ def run_case(case, tier):
                 bump(extra, "run-timeout")
                 res["refusals"].append("timeout:" + label.split("+")[0])
                 continue
+            bump(extra, "ms:polar-solve", int(1000 * (time.time() - t_run)))
+            t_run = time.time()
             bump(ev, "RecurrenceSolver.get", len(xs))
             bump(ev, ("AcyclicSolver.get" if kind == "acyclic" else "CyclicSolver.get"), len(xs))
             bump(ev, "Solver.is_exact")
@@ -366,17 +451,17 @@ def run_case(case, tier):
             # ---- compare every component with the oracle
             signal.setitimer(signal.ITIMER_REAL, RUN_BUDGET[tier])
             try:
-                shapes = [shape_of(f) for f in forms]
                 run_viol = []
+                n_checked = 0
                 run_cmp = 0
                 for (An, bn, vn, vals, info) in instances:
-                    Nmax = max(s + t for s, t, _ in shapes) + dim + 2
-                    Nmax = min(Nmax, 60)
-                    truth = M.iterate(An, bn, vn, Nmax)
+                    truth = M.iterate(An, bn, vn, 60)
                     for ci, f0 in enumerate(forms):
-                        f = instantiate_form(f0, vals)
-                        s, t, _g = shapes[ci]
+                        fi = instantiate_params(f0, vals)
+                        s, t, _g = shape_of(fi)
+                        f = numerify_for_eval(fi)
                         N = min(s + t + dim + 2, 60)
+                        n_checked = max(n_checked, N)
                         if len({truth[n][ci] for n in range(N + 1)}) > 1:
                             nontrivial = True
                         dev = None
@@ -393,7 +478,7 @@ def run_case(case, tier):
                                 break
                             tv = truth[n][ci]
                             try:
-                                pv = P.eval_at(f, n, {})
+                                pv = eval_form(f, n)
                             except P.Leftover as e:
                                 bad = {"kind": "leftover-symbol", "n": n, "detail": f"symbols {e.names} remain: {e.value}"}
                                 break
@@ -440,10 +525,11 @@ def run_case(case, tier):
                                 run_viol.append(bad)
                 res["comparisons"] += run_cmp
                 res["violations"] += run_viol
+                bump(extra, "ms:oracle-compare", int(1000 * (time.time() - t_run)))
                 runs_done += 1
                 if len(sample_runs) < 2:
                     sample_runs.append({"run": label, "solver": kind, "is_exact": is_exact,
-                                        "closed_form[0]": str(forms[0])[:200], "n_checked": shapes[0][0] + shapes[0][1] + dim + 2})
+                                        "closed_form[0]": str(forms[0])[:200], "n_checked_upto": n_checked})
             except RunTimeout:
                 bump(extra, "compare-timeout")
                 continue
